@@ -38,7 +38,9 @@ func (g *customGen[V]) value(t *T) V {
 }
 
 func (g *customGen[V]) maybeValue(t *T) (V, bool) {
+	parent := t
 	t = newT(t.tb, t.s, flags.debug, nil)
+	t.parent = parent
 	defer t.cleanup()
 
 	defer func() {
